@@ -176,6 +176,8 @@ fn build(app: &AppD) -> ohkami::Ohkami {
     hook::assemble(fangs, items)
 }
 
+thread_local! { static SPLIT_MOUNT_POINTS: std::cell::Cell<u64> = std::cell::Cell::new(0); }
+
 /// generate: the number of path params of the full route equals the signature's (the property's document claims are about declared
 /// params; routes with more template params than the handler declares are generated separately as `undeclared-template-param` cases)
 fn gen_app(rng: &mut Rng, next_app: &mut u32, next_h: &mut u32, depth: usize, prefix_params: usize, undeclared: bool, guarded: bool) -> AppD {
@@ -221,7 +223,24 @@ fn gen_app(rng: &mut Rng, next_app: &mut u32, next_h: &mut u32, depth: usize, pr
         let mut prefix: Vec<(bool, String)> = vec![(false, rng.pick(&["api", "v1", "t"]).to_string())];
         if with_param { prefix.push((true, "tenant0".to_string())) }
         if !routes.iter().any(|r| r.segs.first() == prefix.first()) {
-            let sub = gen_app(rng, next_app, next_h, depth + 1, prefix_params + with_param as usize, undeclared, guarded || auth != 0);
+            let mut sub = gen_app(rng, next_app, next_h, depth + 1, prefix_params + with_param as usize, undeclared, guarded || auth != 0);
+            // every third static mount: the methods of the mount point itself are split over the two applications - the mounted one answers
+            // some at its "/", the mounting one registers another at exactly the prefix (its routes come first in the tuple)
+            // (only for mounted applications without fangs of their own: whose fangs guard a path that two applications share is C04's
+            // side condition, not this property's subject)
+            if !with_param && prefix_params == 0 && sub.auth == 0 && sub.tag.is_none() && rng.chance(1, 2) {
+                if !sub.routes.iter().any(|r| r.segs.is_empty()) {
+                    let h = *next_h; *next_h += 1;
+                    sub.routes.push(RouteD { segs: vec![], methods: vec![(rng.below(5), *rng.pick(&[0u32, 8]), h)] });
+                }
+                let used: Vec<usize> = sub.routes.iter().filter(|r| r.segs.is_empty()).flat_map(|r| r.methods.iter().map(|m| m.0)).collect();
+                let free: Vec<usize> = (0..5).filter(|m| !used.contains(m)).collect();
+                if !free.is_empty() {
+                    let h = *next_h; *next_h += 1;
+                    routes.push(RouteD { segs: prefix.clone(), methods: vec![(*rng.pick(&free), *rng.pick(&[0u32, 3, 4, 6, 8]), h)] });
+                    SPLIT_MOUNT_POINTS.with(|c| c.set(c.get() + 1));
+                }
+            }
             mounts.push((prefix, sub));
         }
     }
@@ -261,6 +280,7 @@ pub fn run(args: &Args, rep: &mut Report) {
             let undeclared = case % 8 == 7;
             let (mut na, mut nh) = (1u32, 1u32);
             let app = gen_app(&mut rng, &mut na, &mut nh, 0, 0, undeclared, false);
+            rep.count_n("mount_points_whose_methods_are_split_over_two_applications", SPLIT_MOUNT_POINTS.with(|c| c.replace(0)));
             let mut ops: Vec<Value> = vec![];
             flatten(&app, &[], vec![], vec![], &mut ops);
             rep.eval();
